@@ -116,6 +116,8 @@ for d in sorted(glob.glob('/verif/seeded/*-r[67]m*')):
     what, needs = DESC.get(mid, (m.get('what_breaks', '')[:120], m.get('needs_to_manifest', '')[:100]))
     rules = m.get('caught_by_rules', [])
     mine = sorted(r for r in rules if r.startswith(prop + '.'))
+    if not mine and prop in m.get('caught_by_properties', []):
+        mine = ['anchor (the reshaped function no longer matches the rule\'s reference; reported as unresolved)']
     others = sorted(set(p for p in m.get('caught_by_properties', []) if p != prop))
     if mine: own += 1
     elif others: other_only += 1
